@@ -9,7 +9,7 @@ from ..world import attr_events
 from . import _w
 
 PROP = "C12"
-WEIGHTS = {"swap": 46, "swap_window": 4, "route": 10, "provide": 10, "withdraw": 6, "donate": 6, "swap_malformed": 0,
+WEIGHTS = {"swap": 46, "swap_window": 4, "route": 10, "provide": 10, "withdraw": 6, "donate": 8, "swap_malformed": 10,
            "provide_malformed": 0, "unauth": 0, "transfer": 0, "lp_transfer": 0, "lp_burn": 1, "route_bad": 0,
            "intent": 4, "add_decimals": 0}
 
